@@ -85,6 +85,57 @@ def sample(op, l, r, n):
     return {"L": int(round(q)) if abs(q) < 2 ** 30 else 2 ** 30, "R": mr, "N": mn}
 
 
+OTHER_OPS = {"ceil": "ceil", "abs": "abs", "negate": "neg", "sum": "agg-sum", "mean": "agg-mean", "max": "agg-max",
+             "max compared with": "max2", "min compared with": "min2"}
+
+
+def scaled7(*xs):
+    m = max(abs(x) for x in xs)
+    if m == 0:
+        return [0 for _ in xs]
+    e = int(math.floor(math.log10(m))) - 6
+    return [int(round(x / 10 ** e)) for x in xs]
+
+
+def other_samples(ns, op, v, lp, rp):
+    """samples for the operators that are not + - * /: element-wise ceil / abs / negation / maximum / minimum, and the
+    sum / mean / maximum of a series (computed here over the whole recorded operand), all in base units"""
+    f = OTHER_OPS[op]
+    if f == "agg-max" and rp is not None:
+        f = "max2"                                   # the larger of two scalars
+    out = []
+    if f.startswith("agg"):
+        if not isinstance(lp, ns.ExplainableHourlyQuantities) or not isinstance(v, ns.ExplainableQuantity):
+            return out
+        fac = efx._base_factor(ns, lp.value.dtypes.iloc[0].units)
+        xs = [float(x) * fac for x in lp.value["value"].values._data]
+        agg = {"agg-sum": sum(xs), "agg-mean": sum(xs) / len(xs), "agg-max": max(xs)}[f]
+        n = magnitude_at(ns, v, None)
+        if n is None or n != n or agg != agg:
+            return out
+        a, b = scaled7(agg, n)
+        return [{"f": "agg", "L": a, "R": 0, "N": b}]
+    hours = [None]
+    if isinstance(v, ns.ExplainableHourlyQuantities):
+        idx = v.value.index
+        hours = sorted({idx[0], idx[len(idx) // 2], idx[-1]})
+    for h in hours:
+        l, n = magnitude_at(ns, lp, h), magnitude_at(ns, v, h)
+        r = magnitude_at(ns, rp, h) if rp is not None else 0.0
+        if any(x is None or x != x or abs(x) == float("inf") for x in (l, r, n)):
+            continue
+        if f == "ceil":
+            if dims(ns, v) or dims(ns, lp) or abs(l) > 2e6 or abs(n) > 2e6:
+                continue                              # only counts (no dimension) are ceiled by the library
+            out.append({"f": "ceil", "L": int(round(l * 1000)), "R": 0, "N": int(round(n * 1000))})
+        else:
+            if f in ("max2", "min2") and dims(ns, lp) != dims(ns, rp):
+                continue
+            a, b, c_ = scaled7(l, r, n)
+            out.append({"f": f, "L": a, "R": b, "N": c_})
+    return out
+
+
 def tree_event(ns, tid, seq, slot, value, calculated_ids):
     nodes, index = [], {}
 
@@ -115,6 +166,11 @@ def tree_event(ns, tid, seq, slot, value, calculated_ids):
                 s = sample(node["op"], magnitude_at(ns, lp, h), magnitude_at(ns, rp, h), magnitude_at(ns, v, h))
                 if s is not None:
                     node["smp"].append(s)
+        elif node["op"] in OTHER_OPS and node["l"] and not isinstance(v, ns.EmptyExplainableObject):
+            try:
+                node["smp"] += other_samples(ns, node["op"], v, v.left_parent, v.right_parent if node["r"] else None)
+            except Exception:   # noqa: an operand that cannot be sampled is not sampled
+                pass
         return pos
     ok, err = True, "none"
     try:
@@ -177,6 +233,19 @@ def run(tier, out):
                 for sto in efx.names_of(model, "Storage"):
                     model[sto]["inp"]["base_storage_need"] = [rng.choice([0.5, 2]), "TB"]
                     model[sto]["inp"]["idle_power"] = [rng.choice([1, 5]), "W"]
+            if seed % 3 != 2:
+                # inputs written in other units than the defaults' (a server's RAM in MB, a disk's capacity in GB, ...): the recorded
+                # operations must still give the recorded values
+                from . import c10
+                for n_ in sorted(model):
+                    if n_.startswith("__"):
+                        continue
+                    for a_ in sorted(model[n_]["inp"]):
+                        forced = (model[n_]["cls"], a_) in (("Server", "ram"), ("Storage", "storage_capacity"), ("Job", "ram_needed"))
+                        if forced or rng.random() < 0.3:
+                            alts = c10.alternatives(ns, model[n_]["inp"][a_][1])
+                            if alts:
+                                model[n_]["inp"][a_] = c10.reexpress(ns, model[n_]["inp"][a_], rng.choice(alts))
             tid += 1
             try:
                 h = history.LiveHistory(ns, log, tid, model)
